@@ -732,6 +732,10 @@ func runC07(r *Run) {
 	} else {
 		r.Bad("R10", "anchor/EthValidateBasicDecorator.AnteHandle", "", "not found")
 	}
+	r.Rule("R11", "see C03 R5 (imported): the account that is charged the up-front fee and the account that receives the refund are both MsgEthereumTx.From — which arrives empty (EthValidateBasicDecorator refuses a pre-filled one in every mode) and has one writer, the signature decorator, storing the recovered signer unconditionally: otherwise the fee is deducted from an account named by whoever assembled the wrapper while the refund goes to the signer")
+	r.Import("R11/C03.", []string{"R5"}, runC03)
+	r.Rule("R12", "see C05 R4 (imported): the refund counter is revertible StateDB state — every write to it is journalled and nothing but AddRefund/SubRefund and a journal revert writes it; a Commit that zeroes it (go-ethereum's Finalise does, but Haqq's precompiles commit in the middle of a transaction) drops the storage refunds earned before a precompile call and the sender is charged for gas he was owed")
+	r.Import("R12/C05.", []string{"R4"}, runC05)
 	r.Rule("R9", "see C16 R3 (imported): the gas a precompile call is charged is exactly what its Cosmos-side work consumed — every Run charges contract.UseGas(GasConsumed − initialGas) and fails when that is refused, and the SDK gas meter RunSetup installs is limited by the call's gas plus what it is pre-charged with (the gas the transaction's meter already shows): a later message of a multi-message Ethereum transaction must not pay for the earlier ones inside its precompile calls")
 	r.Import("R9/C16.", []string{"R3"}, runC16)
 	// ---------- R5 ----------
